@@ -23,7 +23,8 @@ from .eqmodel import self_attr
 
 class InlineEq(em.EqPolicy):
     def decide_inline(self, func, call, frame):
-        return func.cls is not None and func.cls.name == 'Equalizer' and func.name != '_play_and_compare_recording'
+        return func.cls is not None and func.cls.name == 'Equalizer' and func.name != '_play_and_compare_recording' and \
+            not any(isinstance(n, ast.Call) and self_attr(n.func) == 'player' for n in ast.walk(func.node))
 
     def summary_target(self, fi, call, frame):
         return Target('opaque', 'repo:' + fi.qualname, raises=frozenset(), role='summary', func=fi)
@@ -49,13 +50,8 @@ def run(ctx):
     cf = res.clause('C13.f', 'R-ORDER', 'replacement worker only when the handle is None', floor=1)
     excm = ctx.excm(em.EQ_SCOPE)
     pol = em.EqPolicy(repo, excm)
-    ww = eq.lookup('_play_and_compare_recording_within_worker')
-    th = eq.lookup('_handle_compare_execution_timeout')
-    kill = eq.lookup('_kill_compare_process')
-    recyc = eq.lookup('_create_or_recycle_player_process_if_needed')
-    create = eq.lookup('_create_new_player_process')
-    wt = eq.lookup('_playback_process_target')
-    runc = eq.lookup('run_comparison')
+    er = em.EqRoles(repo)
+    ww, th, kill, recyc, create, wt, runc = er.dispatch, er.timeout, er.kill, er.recycle, er.create, er.target, er.run
     for nm, m in (('within_worker', ww), ('timeout handler', th), ('kill', kill), ('recycle', recyc), ('create', create), ('worker target', wt), ('run', runc)):
         if m is None:
             raise AnalysisError('anchor-lost method role=%s' % nm)
@@ -341,7 +337,7 @@ def terminate_event_clause(ctx, res, clause, prop, cid):
     eq = em.equalizer(repo)
     excm = ctx.excm(em.EQ_SCOPE)
     pol = em.EqPolicy(repo, excm)
-    ww = eq.lookup('_play_and_compare_recording_within_worker')
+    ww = em.EqRoles(repo).dispatch
     term = None
     for (c, f), t in pol.field_types.items():
         if c == eq.name and t == ('lib', 'multiprocessing.Event'):
